@@ -126,6 +126,7 @@ def run_history(steps):
     boot.swallowed.take()
     dev = lab.add_stack(2, DeviceApp, segmentation="segmentedBoth", max_apdu=1024, max_segs=16, retries=1, apdu_timeout=1000, seg_timeout=500, app_timeout=3000)
     LD.populate(dev)
+    dev.app.record_iam = True          # the device keeps what its peers announce about themselves
     att = lab.add_attacker(99)
     owed = []            # classified well-framed requests, in injection order
     used = set()
@@ -299,6 +300,7 @@ class LinkLab(object):
         L.bind(self.bip, BL.BS.AnnexJCodec(), self.mux)
         self.nsap.bind(self.bip)
         LD.populate(self)
+        self.app.record_iam = True
         self.att_addr = BL.Address("%s/24" % ATT_IP)
         seen = self.seen = []
 
@@ -501,6 +503,7 @@ def plan(tier, seed):
         specs.append(dict(name="bodies-%d" % i, kind="bodies", n=4000 if tier == "quick" else 40000))
     for i in range(6):
         specs.append(dict(name="histories-%d" % i, kind="hist", n=1500 if tier == "quick" else 15000))
+    specs.append(dict(name="announced-peers", kind="iam", tier=tier))
     for dev in ("simple", "bbmd", "foreign"):
         specs.append(dict(name="link-mutate-%s" % dev, kind="link-mutate", dev=dev, tier=tier, part="octets"))
         specs.append(dict(name="link-functions-%s" % dev, kind="link-mutate", dev=dev, tier=tier, part="functions"))
@@ -601,10 +604,32 @@ def run(spec, ctx):
         segack = st.tuples(st.integers(0, 12), st.one_of(st.integers(0, 12), st.integers(0, 255)), st.sampled_from([0, 1, 2, 16, 127, 255]), st.booleans(), st.booleans()).map(
             lambda t: LD.RN.encode(dict(msg=None, dadr=None, sadr=None, er=False, prio=0, hop=None,
                                         data=RA.encode(dict(type=RA.SEGACK, nak=t[3], srv=t[4], invoke=t[0], seq=t[1], win=t[2])))).hex())
-        step = st.one_of(st.tuples(st.just("inject"), st.lists(st.one_of(vf, mf, mf, garbage, rf, rf, reveal, sr, segack, segack), min_size=1, max_size=5)).map(list),
+        iam = st.tuples(st.sampled_from([99, 2, 7]), st.sampled_from([50, 128, 480, 1476]), st.integers(0, 3)).map(lambda t: LD.iam_frame(*t).hex())
+        vsa = st.tuples(st.integers(0, 9), st.integers(0, 12), st.sampled_from([0, 2, 7])).map(lambda t: LD.request_frame(t[1], seeds()[t[0]][1], seeds()[t[0]][2], sa=True, maxsegs=t[2]).hex())
+        step = st.one_of(st.tuples(st.just("inject"), st.lists(st.one_of(vf, vsa, iam, mf, mf, garbage, rf, rf, reveal, sr, segack, segack), min_size=1, max_size=5)).map(list),
                          st.tuples(st.just("adv"), st.sampled_from([0.0, 0.1, 0.5, 1.0, 2.1, 6.0])).map(list))
         strat = st.lists(step, min_size=1, max_size=8).map(lambda s: dict(k="h", steps=s))
         ctx.for_all(strat, spec["n"])
+    elif kind == "iam":
+        # the requester has announced itself (I-Am with every segmentation support x max-APDU), then asks with and without the
+        # segmented-response-accepted bit, for every kind of answer; a second I-Am may arrive between the requests
+        n_ = 0
+        for seg in range(4):
+            for mx in (50, 128, 480, 1476):
+                for again in (None, (seg + 1) % 4, seg):
+                    steps = [["inject", [LD.iam_frame(99, mx, seg).hex()]]]
+                    inv = 20
+                    for si in range(10):
+                        for sa in (True, False):
+                            steps.append(["inject", [seed_frame(si, invoke=inv, sa=sa, maxsegs=0 if not sa else 2).hex()]])
+                            inv += 1
+                        if again is not None and si == 4:
+                            steps.append(["inject", [LD.iam_frame(99, mx, again).hex()]])
+                    ctx.check(dict(k="h", steps=steps))
+                    # the same in one instant
+                    ctx.check(dict(k="h", steps=[["inject", [x for st_ in steps for x in st_[1]]]]))
+                    n_ += 2
+        ctx.mark_exhaustive("I-Am of the requester (4 segmentation values x 4 max-APDU sizes, repeated or changed mid-way) followed by every seed with and without segmented-response-accepted")
     elif kind == "link-mutate":
         dev = spec["dev"]
         ok = link_frame(seed_frame(1, invoke=31))                    # a valid ReadProperty that must be answered whatever stands next to it
